@@ -117,11 +117,13 @@ class C16(Check):
                 extra = {"log_w": sx.terms(s.log_w), "weights": sx.terms(s.weights)}
                 s.log_evidence = sx.sym("carriedZ")  # a value that cannot be recomputed
                 s.log_evidence_error = sx.sym("carriedE")
-            if cfg["cls"] == "SMCSamples":
+            if cfg["cls"] == "SMCSamples" or (cfg["cls"] == "Samples" and sub != "all"):
+                # evidence attached to a set without weights (what
+                # to_standard_samples() and the MCMC samplers return)
                 s.log_evidence = sx.sym("carriedZ")
                 s.log_evidence_error = sx.sym("carriedE")
             ref = Ref(x, fields, extra)
-            ref.evidence = (z3.Real("carriedZ"), z3.Real("carriedE")) if cfg["cls"] in ("Samples", "SMCSamples") and sub == "all" else None
+            ref.evidence = (z3.Real("carriedZ"), z3.Real("carriedE")) if cfg["cls"] in ("Samples", "SMCSamples") else None
             cur = s
             for step, op in enumerate(seq):
                 cur, ref = self.apply(ctx, cls, cur, ref, op, step)
@@ -354,7 +356,7 @@ def replay_c16(cex):
         extra = {}
         if cfg["cls"] == "Samples" and sub == "all":
             extra = {"log_w": s.log_w.copy(), "weights": s.weights.copy()}
-        if cfg["cls"] in ("Samples", "SMCSamples") and sub == "all":
+        if cfg["cls"] in ("Samples", "SMCSamples"):
             s.log_evidence, s.log_evidence_error = 123.5, 0.75
         cur = s
         carried = True
@@ -390,7 +392,7 @@ def replay_c16(cex):
                     before = (cur.log_evidence, cur.log_evidence_error) if hasattr(cur, "log_evidence") else None
                     cur = cls.from_dict(cur.to_dict(flat=kind == "dict_flat"))
                     extra = {}
-                    if carried and before is not None and cfg["cls"] in ("Samples", "SMCSamples") and sub == "all":
+                    if carried and before is not None and cfg["cls"] in ("Samples", "SMCSamples"):
                         if cur.log_evidence is None or float(cur.log_evidence) != float(before[0]) or float(cur.log_evidence_error) != float(before[1]):
                             bad.append(f"dict round trip changed the attached evidence: {before[0]!r} -> {cur.log_evidence!r}")
                     carried = False
@@ -420,7 +422,7 @@ def replay_c16(cex):
                 bad.append("parameters lost")
             if cfg["cls"] == "SMCSamples" and cur.beta != 0.25:
                 bad.append("beta lost")
-            if carried and cfg["cls"] in ("Samples", "SMCSamples") and sub == "all":
+            if carried and cfg["cls"] in ("Samples", "SMCSamples"):
                 if cur.log_evidence != 123.5 or cur.log_evidence_error != 0.75:
                     bad.append(f"evidence not carried: {cur.log_evidence!r}")
     return (len(bad) > 0, "; ".join(bad[:3]) if bad else "all C16 clauses hold on this input")
